@@ -67,4 +67,61 @@ theorem strip_eq (p : α → Bool) (xs : List α) : strip p xs = pyStrip p xs :=
   unfold strip pyStrip
   rw [rstrip_eq, lstrip_eq]
 
+/-- what the item-wise `str.strip` delivers: the input minus an all-`p` prefix and suffix, and the
+    result neither starts nor ends with a `p` item (so both are maximal) -/
+theorem pyStrip_decomp (p : α → Bool) (src : List α) :
+    ∃ pre suf, src = pre ++ pyStrip p src ++ suf ∧ (∀ x ∈ pre, p x = true) ∧ (∀ x ∈ suf, p x = true) ∧
+      (∀ x, (pyStrip p src).head? = some x → p x = false) ∧
+      (∀ x, (pyStrip p src).getLast? = some x → p x = false) := by
+  refine ⟨src.takeWhile p, ((src.dropWhile p).reverse.takeWhile p).reverse, ?_, ?_, ?_, ?_, ?_⟩
+  · unfold pyStrip pyRstrip pyLstrip
+    rw [List.append_assoc, ← List.reverse_append, List.takeWhile_append_dropWhile, List.reverse_reverse,
+      List.takeWhile_append_dropWhile]
+  · intro x hx
+    induction src with
+    | nil => simp at hx
+    | cons a as ih =>
+      rw [List.takeWhile_cons] at hx
+      split at hx
+      · rename_i h
+        simp only [List.mem_cons] at hx
+        rcases hx with rfl | hx
+        · exact h
+        · exact ih hx
+      · simp at hx
+  · intro x hx
+    rw [List.mem_reverse] at hx
+    generalize (src.dropWhile p).reverse = l at hx
+    induction l with
+    | nil => simp at hx
+    | cons a as ih =>
+      rw [List.takeWhile_cons] at hx
+      split at hx
+      · rename_i h
+        simp only [List.mem_cons] at hx
+        rcases hx with rfl | hx
+        · exact h
+        · exact ih hx
+      · simp at hx
+  · intro x hx
+    -- the result is a prefix of `dropWhile p src`, whose head fails `p`
+    have hpre : pyStrip p src ++ ((src.dropWhile p).reverse.takeWhile p).reverse = src.dropWhile p := by
+      unfold pyStrip pyRstrip pyLstrip
+      rw [← List.reverse_append, List.takeWhile_append_dropWhile, List.reverse_reverse]
+    cases hr : pyStrip p src with
+    | nil => rw [hr] at hx; simp at hx
+    | cons y ys =>
+      rw [hr] at hx hpre
+      simp only [List.head?_cons, Option.some.injEq] at hx
+      subst hx
+      have := List.head?_dropWhile_not p src
+      rw [← hpre] at this
+      simpa using this
+  · intro x hx
+    unfold pyStrip pyRstrip at hx
+    rw [List.getLast?_reverse] at hx
+    have := List.head?_dropWhile_not p (pyLstrip p src).reverse
+    rw [hx] at this
+    simpa using this
+
 end C09
